@@ -85,6 +85,8 @@ pub struct RandomParams {
     /// clock moves explored and the grid of clock readings they may reach (per model, from gen.py)
     pub advset: Vec<i64>,
     pub grid: Vec<i64>,
+    /// evict the process from the cache at quiescent points (C12)
+    pub evict: bool,
 }
 
 /// how often each (model, input, canonical state, choice) was taken in this harness process
@@ -118,6 +120,7 @@ enum Choice {
     Act(Key, String, Value, bool), // target, kind, opts, free (does not use the budget)
     Tick,
     Advance(i64),
+    Evict,
 }
 
 impl Choice {
@@ -127,6 +130,7 @@ impl Choice {
             Choice::Act(k, kind, o, _) => format!("A:{}#{}:{}:{}", k.0, k.1, kind, o),
             Choice::Tick => "T".to_string(),
             Choice::Advance(d) => format!("V:{d}"),
+            Choice::Evict => "X".to_string(),
         }
     }
 }
@@ -181,6 +185,10 @@ fn enumerate_choices(
             out.push(Choice::Act(t.0.clone(), "complete".to_string(), none.clone(), false));
         }
         out.push(Choice::Act(("zz".to_string(), 1), "skip".to_string(), none.clone(), false));
+    }
+    // eviction: only when nothing is queued or parked, the process is cached, and it was asked for
+    if p.evict && w.parked(pid).is_empty() && verif::jobs_list().is_empty() && !tasks.is_empty() {
+        out.push(Choice::Evict);
     }
     // time: only for models that have timeout rules
     if !p.advset.is_empty() {
@@ -272,13 +280,14 @@ pub async fn random_scenario(
                 }
                 Choice::Tick => w.tick().await,
                 Choice::Advance(d) => w.advance(*d).await,
+                Choice::Evict => w.evict(pid).await,
             }
         }
         w.lines.push(json!({"ev": "end", "steps": w.steps}));
         return std::mem::take(&mut w.lines);
     }
     for _ in 0..p.max_steps {
-        if w.stuck {
+        if w.stuck || w.gone(pid) {
             break;
         }
         let parked = w.parked(pid);
@@ -294,6 +303,15 @@ pub async fn random_scenario(
                 w.tick().await;
             } else {
                 w.advance(*moves.choose(rng).unwrap()).await;
+            }
+            continue;
+        }
+        if p.evict && parked.is_empty() && verif::jobs_list().is_empty() && !tasks.is_empty() && rng.gen_bool(0.3) {
+            w.evict(pid).await;
+            // the live dump is gone until the next access: act right away
+            if let Some(t) = w.last_tasks.iter().find(|t| t.1 == "act" && t.2 == "interrupted") {
+                let k = t.0.clone();
+                w.act(pid, &k, "complete", &json!({"ecode": "nil", "to": "nil"})).await;
             }
             continue;
         }
@@ -373,9 +391,11 @@ pub fn random(args: &Args) -> i32 {
         guided: args.get("guided").is_some(),
         advset: vec![],
         grid: vec![],
+        evict: args.get("evict").is_some(),
     };
     let mut visits = Visits::new();
-    let cfg = Cfg::default();
+    let mut cfg = Cfg::default();
+    cfg.keep = args.get("nokeep").is_none();
     let mut rng = StdRng::seed_from_u64(seed);
     let offset = args.num("offset", 0) as usize;
     // one tokio runtime for all scenarios of this process (a runtime per scenario leaks its
@@ -596,6 +616,7 @@ async fn explore_run(
             }
             Choice::Tick => w.tick().await,
             Choice::Advance(d) => w.advance(*d).await,
+            Choice::Evict => w.evict(pid).await,
         }
         if let Some(last) = w.lines.last() {
             if let Some(gens) = last["gens"].as_array() {
@@ -622,7 +643,7 @@ async fn explore_run(
     }
     w.prefix = false;
     for _ in 0..p.max_steps {
-        if w.stuck {
+        if w.stuck || w.gone(pid) {
             break;
         }
         let key = explore_key(&w, pid, budget, &counts);
@@ -680,11 +701,14 @@ pub fn explore(args: &Args) -> i32 {
         guided: false,
         advset: vec![],
         grid: vec![],
+        evict: args.get("evict").is_some(),
     };
     let max_runs = args.num("max-runs", 20000) as usize;
+    let nokeep = args.get("nokeep").is_some();
     let shard = args.num("shard", 0) as usize;
     let shards = args.num("shards", 1) as usize;
-    let cfg = Cfg::default();
+    let mut cfg = Cfg::default();
+    cfg.keep = !nokeep;
     let mut total_runs = 0usize;
     let mut total_states = 0usize;
     let mut total_edges = 0usize;
